@@ -36,6 +36,7 @@ use crate::hll::HllType;
 use crate::hll::array4::Array4;
 use crate::hll::array6::Array6;
 use crate::hll::array8::Array8;
+use crate::hll::estimator::HipEstimator;
 use crate::hll::mode::Mode;
 use crate::hll::pack_coupon;
 
@@ -419,14 +420,14 @@ fn merge_array_into_array8(dst_array8: &mut Array8, dst_lg_k: u8, src_mode: &Mod
     }
 }
 
-/// Extract HIP accumulator from an array mode
-fn get_array_hip_accum(mode: &Mode) -> f64 {
+/// Extract the estimator state from an array mode
+fn get_array_estimator(mode: &Mode) -> &HipEstimator {
     match mode {
-        Mode::Array8(src) => src.hip_accum(),
-        Mode::Array6(src) => src.hip_accum(),
-        Mode::Array4(src) => src.hip_accum(),
+        Mode::Array8(src) => src.estimator(),
+        Mode::Array6(src) => src.estimator(),
+        Mode::Array4(src) => src.estimator(),
         Mode::List { .. } | Mode::Set { .. } => {
-            unreachable!("get_array_hip_accum called with non-array mode; List/Set not supported");
+            unreachable!("get_array_estimator called with non-array mode; List/Set not supported");
         }
     }
 }
@@ -530,11 +531,10 @@ fn convert_array8_to_type(src: &Array8, lg_config_k: u8, target_type: HllType) -
                 }
             }
 
-            let src_est = src.estimate();
-            let arr6_est = array6.estimate();
-            if src_est > arr6_est {
-                array6.set_hip_accum(src_est);
-            }
+            // Same registers, same stream: carry over the estimator state (HIP accumulator,
+            // KxQ registers and out-of-order flag) so the estimate and bounds do not depend
+            // on the requested target type.
+            array6.set_estimator(src.estimator().clone());
 
             HllSketch::from_mode(lg_config_k, Mode::Array6(array6))
         }
@@ -548,11 +548,7 @@ fn convert_array8_to_type(src: &Array8, lg_config_k: u8, target_type: HllType) -
                 }
             }
 
-            let src_est = src.estimate();
-            let arr4_est = array4.estimate();
-            if src_est > arr4_est {
-                array4.set_hip_accum(src_est);
-            }
+            array4.set_estimator(src.estimator().clone());
 
             HllSketch::from_mode(lg_config_k, Mode::Array4(array4))
         }
@@ -577,7 +573,7 @@ fn copy_array46_via_coupons(dst: &mut Array8, num_registers: usize, get_value: i
 fn copy_or_downsample(src_mode: &Mode, src_lg_k: u8, tgt_lg_k: u8) -> Array8 {
     if src_lg_k <= tgt_lg_k {
         let mut result = Array8::new(src_lg_k);
-        let src_hip = get_array_hip_accum(src_mode);
+        let src_estimator = get_array_estimator(src_mode).clone();
 
         match src_mode {
             Mode::Array8(src) => {
@@ -596,7 +592,9 @@ fn copy_or_downsample(src_mode: &Mode, src_lg_k: u8, tgt_lg_k: u8) -> Array8 {
             }
         }
 
-        result.set_hip_accum(src_hip);
+        // A plain copy describes the same stream as its source: carry over the whole
+        // estimator state (HIP accumulator, KxQ registers and out-of-order flag).
+        result.set_estimator(src_estimator);
         result
     } else {
         // Downsample from src to tgt
